@@ -20,6 +20,13 @@ _S = (" Struct reader: schema.Struct (core/schema/struct.go) is modelled as Stru
       " library's reader and by the model (op structread).")
 HISTORY_NOTE["C04"] += _S
 HISTORY_NOTE["C02"] += _S
+_I = (" Issuance model (Model/Issue.lean): the options of delegation.Delegate / invocation.Invoke fold into a configuration (a later option of a kind replaces"
+      " the earlier; WithExpiration and WithNoExpiration replace each other) that decides which optional fields are written: theorems last_noexp / last_exp, fold_swap"
+      " (options of different kinds commute), apply_replace, nbf_written_iff (written iff not 0, negative values included), default_exp, issued_window (the validator"
+      " model's window predicates on the issued fields). Tie: for tokens issued with option lists (given twice, in both orders, bounds at 0 / negative / beyond 2^53)"
+      " the bytes the model writes from the OPTIONS equal the root block (op wire, item kind issued).")
+HISTORY_NOTE["C03"] += _I
+HISTORY_NOTE["C18"] = _I
 HISTORY_NOTE["C09"] += (" Fresh-process batches (batchfresh): a worker process is started for the case alone, so that the concurrent validations are the first"
                         " use of the library in the process (lazily initialised package state), under the race detector.")
 HISTORY_NOTE["C17"] = (" Fresh-process cases (bsfresh): a worker process is started for the case alone; goroutines attach to, iterate and archive one shared"
@@ -72,7 +79,8 @@ PROPS = {
     "C03": {
         "manifest": {"text": "Theorems isExpired_spec / isTooEarly_spec (exactly exp <= now, resp. nbf set and now <= nbf), C03_noexp, C03_inside (strictly inside the window is never rejected for time reasons, by either predicate), C03_no_spurious (validate never answers expired/too-early for an in-window token), C03_window (every delegation of a returned authorization, at any depth, is inside its window at the validation second) and C03_attestation_window (so is every delegation of an accepted session attestation); over time: C03_expired_mono, C03_tooEarly_anti, C03_window_convex (the seconds at which a token is in its window form an interval) and C03_window_exact (exactly nbf < now < exp). Correspondence without a clock hook: each case fixes one position (invocation, proof at any depth, attestation) to one of the 6x6 boundary combinations relative to the wall-clock second T read just before validation; the sample is kept only if the clock still reads T afterwards; the model is evaluated with now = T.", "design_ref": "5.3", "note": VALIDATOR_NOTE + "; wall clock: a sample is discarded when the second ticks during validation"},
         "obligations": ob("UcantoModel.Props.C03", "V.isExpired_spec", "V.isTooEarly_spec", "V.C03_noexp", "V.C03_inside", "V.C03_no_spurious", "V.C03_window", "V.C03_attestation_window",
-                          "V.C03_expired_mono", "V.C03_tooEarly_anti", "V.C03_window_convex", "V.C03_window_exact"),
+                          "V.C03_expired_mono", "V.C03_tooEarly_anti", "V.C03_window_convex", "V.C03_window_exact")
+                       + ob("UcantoModel.Props.Issue", "Issue.last_noexp", "Issue.last_exp", "Issue.fold_swap", "Issue.apply_replace", "Issue.nbf_written_iff", "Issue.default_exp", "Issue.issued_window"),
         "rule": "valid worlds (depth 0-4, half with a session); one position x expiration in {none, far past, T-1, T, T+1, far} x not-before in {unset, far past, T-1, T, T+1, far}, T = wall-clock second of validation (bracketed). every case is non-trivial; distinct: hash of the concrete world", "trusted_base": VALIDATOR_TRUSTED,
     },
     "C04": {
@@ -125,6 +133,7 @@ PROPS = {
         "level": "translation_validation",
         "manifest": {"text": "Translation validation of the format the stored artifacts were written under, plus proof that the format reads what it writes. (1) A committed corpus (corpus/c18/recorded.jsonl: 336 deterministic issuance programs - tokens over every option combination x Ed25519 / RSA / wrapped keys x caveat shapes, nested delegation worlds with inline and link-only proofs and sessions, receipts, key and DID strings - with the bytes, CIDs, signatures, archives, delegation strings and requests they produced; identical to what the pinned tree produces wherever the pinned tree can run the program) is re-executed on the current tree and compared byte for byte, and every recorded artifact is parsed, extracted, decoded and verified with the current tree. (2) The recorded artifacts are also read by the Lean format model (DID strings/bytes, signature framing, Ed25519 key layout, CAR archives with SHA-256), which must agree. (3) Theorems: wire_constants_unchanged (the multicodec tags, version strings, schema keys, media type and header constants extracted from the Go source on this run by go/ast are the UCAN 0.9.1 / ucanto ones: `by decide` on regenerated definitions), model_constants, readable (signature framing, key layout, varints round trip; only blocks hashing to their link leave an archive).", "design_ref": "5.18", "note": "that today's Go equals the recorded past is an empirical byte comparison over the corpus, not a theorem; Lean kernel; constants extractor harness/facts.go; DAG-CBOR / DAG-JSON encoders are compared through their outputs only", "technique": "recorded-corpus byte comparison + Lean format model reading the recorded artifacts + kernel-checked constants table regenerated from source"},
         "obligations": ob("UcantoModel.Props.C18", "C18.wire_constants_unchanged", "C18.model_constants", "C18.readable")
+                       + ob("UcantoModel.Props.Issue", "Issue.last_noexp", "Issue.last_exp", "Issue.fold_swap", "Issue.apply_replace", "Issue.nbf_written_iff", "Issue.default_exp", "Issue.issued_window")
                        + ob("UcantoModel.Lemmas.CborRoundtrip", "Cbor.decodeTop_encode", "Cbor.encode_injective")
                        + ob("UcantoModel.Props.C13Archive", "Archive.C13_archive_roundtrip")
                        + ob("UcantoModel.Props.WireReadback", "Wire.fieldsOf_tokenVal", "Wire.token_readback", "Wire.tokenBytes_injective", "Wire.sampleToken_wf"),
